@@ -82,6 +82,8 @@ NewOf(l1, syms1, hd1, syms0, hd0) ==
                     THEN <<hd0[l1.h].sym.mk, hd0[l1.h].sym.mj>>
                     ELSE <<0, 0>>
          IN [mk |-> s.mk, mj |-> s.mj, via |-> s.via, tree |-> Tree(s.val), src |-> src]
+    ELSE IF o = "rehome"
+    THEN LET s == hd1[l1.i].sym IN [mk |-> s.mk, mj |-> s.mj, via |-> s.via, tree |-> Tree(s.val), src |-> <<s.mk, s.mj>>]
     ELSE IF o = "get_owned"
     THEN LET s == hd1[l1.h].sym IN [mk |-> s.mk, mj |-> s.mj, via |-> s.via, tree |-> Tree(s.val), src |-> <<s.mk, s.mj>>]
     ELSE NoNew
